@@ -295,8 +295,15 @@ theorem unbindURIAttr_transform (v : Str) (h : uriValueAux false v = true) (hv :
       rw [uriDecode_key1 45 [92, 45] [] (by simp [lookup1_valueURI])]; rfl
     rw [this] at hd
     exact h45 hd.symm
+  have hascii : (transformURIAux false v).any (fun c => decide (127 ≤ c)) = false := by
+    rw [List.any_eq_false]
+    intro c hc
+    have := hchars c hc
+    simp only [uriCharOk, lowerAlnumC, Bool.or_eq_true, Bool.and_eq_true, decide_eq_true_eq, beq_iff_eq] at this
+    simp only [decide_eq_true_eq]
+    omega
   unfold unbindURIAttr transformURI
-  simp only [hne, hne45, if_false]
+  simp only [hne, hne45, if_false, hascii, Bool.false_eq_true]
   rw [lowerURI_id _ hchars]
   have hany : (transformURIAux false v).any (fun c => Gen.Cpe.uriDisallow.contains c) = false := by
     rw [List.any_eq_false]
